@@ -148,6 +148,10 @@ def _pool(r, i):
     # the same constexpr name / call text with different bodies
     for body, _v in r.sample(CX, 2):
         P.append(dict(src=HEADER + body + "db.Setting = k(21)\n", opts=opts_from_bits(r.randrange(256))))
+    # a constexpr function whose *helper* changes between two requests while its own source and the call text stay
+    # the same, and a call whose argument is another constexpr call
+    for gain in r.sample([2, 3, 5], 2):
+        P.append(dict(src=HEADER + f"@constexpr\ndef cgain():\n    return {gain}\n@constexpr\ndef setpoint(x):\n    return x * cgain() + 1\ndb.Setting = setpoint(50)\nd0.Setting = setpoint(cgain())\n", opts=opts_from_bits(r.randrange(256))))
     # pragma programs: the options object of this request is shared with the next request of the history
     for pr in r.sample(["# pytrapic: compact, remove-labels\n", "# pytrapic: no-inline-functions, use-push-pop-functions\n", "# pytrapic: no-append-version, generated_comments\n"], 2):
         P.append(dict(src=HEADER + pr + "def f(a):\n    db.Setting = a + HASH(\"x\")\nf(d0.Setting)\n", opts=opts_from_bits(r.randrange(256)), share_options=True))
